@@ -10,6 +10,7 @@ package nbio
 import (
 	"encoding/binary"
 	"errors"
+	"io"
 	"net"
 	"runtime"
 	"sync"
@@ -145,6 +146,11 @@ type Conn struct {
 
 	readEvents int32
 
+	// set by the poller in async read mode when the peer's shutdown was
+	// reported together with readable data: the read task closes the
+	// connection once it has drained the input.
+	readShutdown int32
+
 	dataHandler func(c *Conn, data []byte)
 
 	onConnected func(c *Conn, err error)
@@ -155,6 +161,14 @@ type Conn struct {
 //go:norace
 func (c *Conn) Hash() int {
 	return c.fd
+}
+
+// deferCloseToReadTask tells the async read task to close the connection
+// (peer shutdown) after it has delivered the input that is still pending.
+//
+//go:norace
+func (c *Conn) deferCloseToReadTask() {
+	atomic.StoreInt32(&c.readShutdown, 1)
 }
 
 // AsyncReadInPoller is used for reading data async.
@@ -193,6 +207,10 @@ func (c *Conn) AsyncRead() {
 					break
 				}
 			}
+			if atomic.LoadInt32(&c.readShutdown) == 1 {
+				_ = c.closeWithError(io.EOF)
+				return
+			}
 			c.ResetPollerEvent()
 		})
 		return
@@ -212,6 +230,9 @@ func (c *Conn) AsyncRead() {
 
 	g.IOExecute(func(pBuf *[]byte) {
 		for {
+			// only a pass that starts after the peer's shutdown was
+			// reported is known to drain everything sent before it.
+			shutdown := atomic.LoadInt32(&c.readShutdown) == 1
 			// try to read all the data available.
 			for i := 0; i < g.MaxConnReadTimesPerEventLoop; i++ {
 				bufLen := len(*pBuf)
@@ -238,6 +259,10 @@ func (c *Conn) AsyncRead() {
 				if n < bufLen && !c.IsUDP() {
 					break
 				}
+			}
+			if shutdown {
+				_ = c.closeWithError(io.EOF)
+				return
 			}
 			if atomic.AddInt32(&c.readEvents, -1) == 0 {
 				return
